@@ -268,7 +268,7 @@ func VerifC05_EClean() {
 		"(set 'x 1) (ignore-errors (other:noop) (other:failing)) (handler-bind ((condition (lambda (c &rest a) (other:noop)))) (other:failing)) (set 'y 3)",
 	}
 	pi := vndChoice("prog", vParam("nprogs", len(progs)))
-	entry := vndChoice("entry", 6)
+	entry := vndChoice("entry", 8)
 	n := vndInt64("budget")
 	vAssume(n >= 1)
 	ps := &probeState{}
@@ -298,10 +298,20 @@ func VerifC05_EClean() {
 		r = env.Load("prog", stringsReader(progs[pi]))
 	case 5:
 		r = env.LoadLocation("prog", "/src/prog.lisp", stringsReader(progs[pi]))
+	case 6:
+		// the operator entry point: progn applied to the program's forms
+		exprs, err := env.Runtime.Reader.Read("prog", stringsReader(progs[pi]))
+		vAssert(err == nil, "program parses")
+		r = env.SpecialOpCall(env.GetFunGlobal(lisp.Symbol("progn")), lisp.SExpr(exprs))
+	case 7:
+		// the macro entry point: a macro whose expansion is the program
+		d := env.LoadString("def", "(defmacro main-macro () (quote (progn "+progs[pi]+")))")
+		vAssume(d.Type != lisp.LError)
+		r = env.MacroCall(env.GetFunGlobal(lisp.Symbol("main-macro")), lisp.Nil()) // the expansion, not evaluated
 	}
 	// the same entry points with an explicit context, cancelled right after they return: the
 	// context belonged to THAT evaluation and must not be seen by any later one
-	if vndBool("withctx") {
+	if entry < 6 && vndBool("withctx") {
 		ctx, cancel := context.WithCancel(context.Background())
 		env2 := newEnv(&probeState{}, lisp.WithMaxSteps(n))
 		lisp.WithMaxSteps(0)(env2)
@@ -335,7 +345,7 @@ func VerifC05_EClean() {
 	vObserve("prog", pi)
 	vObserve("outcome", outcome(r))
 	vAssert(!lisp.IsInternalPanic(r), "no host panic")
-	if (entry == 2 || entry == 3) && pi == 4 {
+	if (entry == 2 || entry == 3 || entry == 6 || entry == 7) && pi == 4 {
 		// Eval is not a load: a top-level in-package it completed stays in effect
 		env.InPackage(lisp.Symbol("user"))
 	}
@@ -346,6 +356,19 @@ func VerifC05_EClean() {
 	chk := env.LoadString("chk", "5")
 	if n >= 1 {
 		vAssert(chk.Type == lisp.LInt && chk.Int == 5, "a later evaluation runs normally")
+		vAssert(env.Runtime.Steps() <= 2, "and is a new top-level evaluation: its step count starts from zero")
+		// identical later evaluations count identically: none of them inherits steps from the one before
+		first := int64(-1)
+		for k := 0; k < 3; k++ {
+			lr := env.LoadString("again", "(+ 1 (+ 2 (+ 3 4)))")
+			if n >= 16 {
+				vAssert(lr.Type == lisp.LInt && lr.Int == 10, "later evaluations succeed")
+				if first < 0 {
+					first = env.Runtime.Steps()
+				}
+				vAssert(env.Runtime.Steps() == first, "every later top-level evaluation starts with a full budget and a zero step count")
+			}
+		}
 	}
 	cleanRuntime(env, "user")
 	// whatever the program completed, it bound in ITS package: nothing leaked into the other one,
